@@ -90,6 +90,27 @@ chk("C05", "model_checking",
     "exhaustive enumeration of length-3 formatting histories over a finite program x layout x profile universe", "3/C05")
 
 
+chk("C06", "model_checking",
+    "Stateless bounded-exhaustive exploration on the ASan+UBSan build of the real binary: every byte prefix and line suffix of every "
+    "language skeleton (9 languages) and of the generated declaration/preprocessor units, every token mutation (delete/duplicate/swap "
+    "at every position, every bracket replaced by every other bracket), all byte strings of length <= 2 (quick: over a 44-byte alphabet) "
+    "as a file and after a valid line, ~150 unterminated-construct tails, every line-prefix truncation of the corpus files (quick: files "
+    "<= 30 lines) x {defaults, kitchen-sink profiles, comment-insertion profile, curated styles}; plus every single deviation of every option "
+    "the run reads (incl. mod_/cmt_/lexer options) on the inputs that end inside a construct. Oracle: exit (no signal), documented "
+    "status, no sanitizer report, <= 10 s (confirmed alone with 60 s), nothing on stdout and a diagnostic on stderr when refused.",
+    "clang ASan+UBSan as fault oracle; the quick tier runs the widest option sweep on the uninstrumented build and a 1/16 slice under the sanitizers",
+    "bounded-exhaustive input x configuration enumeration (k<=1) under sanitizers with termination/diagnostic oracle", "3/C06")
+chk("C16", "model_checking",
+    "Registry-exhaustive enumeration on the ASan+UBSan build: for every option (857) a valid line followed by one bad line for the same "
+    "option from the class alphabet of its type (out of range both sides, overflowing, wrong type, dangling / wrongly typed reference, "
+    "misspelt name, name only, empty and empty-quoted value, unterminated quote, 10 000-character value, non-ASCII, NUL), compared with "
+    "the configuration without the bad line (--update-config dump and formatted bytes); directive lines with missing/unknown arguments, "
+    "'using' and 'include' edge cases incl. include cycles; all byte strings <= 2 and all word sequences <= 3 over a 17-word alphabet as "
+    "configuration files; the nl_max rule for every blank-line count option x nl_max 1..3 x {equal, one more} x {file, reversed, --set}.",
+    "aliases accepted by the reader (e.g. 'true' for an iarf option, 0/1/2) are valid values, not bad lines; blank-line count options are recognised by their documentation text",
+    "exhaustive option x bad-line-class enumeration with differential (line absent) oracle under sanitizers", "3/C16")
+
+
 def main():
     commits = subprocess.run(["git", "-C", "/repo", "log", "--format=%h %s"], stdout=subprocess.PIPE, text=True).stdout.splitlines()
     hooks = [c.split()[0] for c in commits if c.split(" ", 1)[1].startswith("verif hook:")]
